@@ -5,6 +5,9 @@ package explore
 
 import (
 	"fmt"
+	"os"
+	"runtime"
+	"runtime/pprof"
 	"sort"
 	"sync"
 	"time"
@@ -125,83 +128,111 @@ func Run(m Model, cfg Config) *Result {
 	for len(frontier) > 0 {
 		res.LevelSizes = append(res.LevelSizes, len(frontier))
 		withSucc := depth < cfg.MaxDepth
+		if os.Getenv("TIBCMC_MEMTRACE") != "" {
+			runtime.GC()
+			var ms runtime.MemStats
+			runtime.ReadMemStats(&ms)
+			fmt.Fprintf(os.Stderr, "[mem] depth=%d frontier=%d nodes=%d heapAlloc=%dMB\n", depth, len(frontier), len(res.nodes), ms.HeapAlloc>>20)
+		}
+		if p := os.Getenv("TIBCMC_HEAPPROF"); p != "" && !withSucc {
+			runtime.GC()
+			if f, err := os.Create(p); err == nil {
+				pprof.WriteHeapProfile(f)
+				f.Close()
+			}
+		}
 		type out struct {
 			succs    []Succ
 			findings []Finding
 			counters map[string]int
 			panicked string
 		}
-		outs := make([]out, len(frontier))
-		var wg sync.WaitGroup
-		next := make(chan int, len(frontier))
-		for i := range frontier {
-			next <- i
-		}
-		close(next)
+		// the frontier is expanded in batches: all successors of one batch are held in memory at a time, not those of
+		// the whole level (a level of 50 000 states has a million successors)
+		const batch = 512
+		var nextFrontier []int
 		timedOut := false
-		var mu sync.Mutex
-		for w := 0; w < cfg.Workers; w++ {
-			wg.Add(1)
-			go func(wk any) {
-				defer wg.Done()
-				for i := range next {
-					if !cfg.Deadline.IsZero() && time.Now().After(cfg.Deadline) {
-						mu.Lock()
-						timedOut = true
-						mu.Unlock()
+		for lo := 0; lo < len(frontier) && !timedOut; lo += batch {
+			hi := lo + batch
+			if hi > len(frontier) {
+				hi = len(frontier)
+			}
+			part := frontier[lo:hi]
+			outs := make([]out, len(part))
+			var wg sync.WaitGroup
+			next := make(chan int, len(part))
+			for i := range part {
+				next <- i
+			}
+			close(next)
+			var mu sync.Mutex
+			for w := 0; w < cfg.Workers; w++ {
+				wg.Add(1)
+				go func(wk any) {
+					defer wg.Done()
+					for i := range next {
+						if !cfg.Deadline.IsZero() && time.Now().After(cfg.Deadline) {
+							mu.Lock()
+							timedOut = true
+							mu.Unlock()
+							continue
+						}
+						func() {
+							defer func() {
+								if r := recover(); r != nil {
+									outs[i].panicked = fmt.Sprint(r)
+								}
+							}()
+							s, f, c := m.Expand(wk, res.nodes[part[i]].state, depth, withSucc)
+							outs[i] = out{succs: s, findings: f, counters: c}
+						}()
+					}
+				}(workers[w])
+			}
+			wg.Wait()
+			if timedOut {
+				break
+			}
+			for i, o := range outs {
+				ni := part[i]
+				path := res.pathOf(ni)
+				if o.panicked != "" {
+					panic(fmt.Sprintf("harness/implementation panic at path %v: %s", path, o.panicked))
+				}
+				for k, v := range o.counters {
+					res.Counters[k] += v
+				}
+				for _, f := range o.findings {
+					f.Path = path
+					res.Findings = append(res.Findings, f)
+				}
+				for _, s := range o.succs {
+					res.Transitions++
+					res.Outcomes[s.Outcome]++
+					for _, f := range s.Findings {
+						f.Path = append(append([]string{}, path...), s.Label)
+						res.Findings = append(res.Findings, f)
+					}
+					if _, ok := seen[s.Key]; ok {
 						continue
 					}
-					func() {
-						defer func() {
-							if r := recover(); r != nil {
-								outs[i].panicked = fmt.Sprint(r)
-							}
-						}()
-						s, f, c := m.Expand(wk, res.nodes[frontier[i]].state, depth, withSucc)
-						outs[i] = out{succs: s, findings: f, counters: c}
-					}()
+					if cfg.MaxStates > 0 && len(res.nodes) >= cfg.MaxStates {
+						res.Exhaustive = false
+						res.CapHit = fmt.Sprintf("state cap %d reached at depth %d", cfg.MaxStates, depth+1)
+						continue
+					}
+					seen[s.Key] = len(res.nodes)
+					res.nodes = append(res.nodes, node{state: s.State, parent: ni, label: s.Label, depth: depth + 1})
+					nextFrontier = append(nextFrontier, len(res.nodes)-1)
 				}
-			}(workers[w])
+				// this state is expanded: its snapshot is no longer needed
+				res.nodes[ni].state = nil
+			}
 		}
-		wg.Wait()
 		if timedOut {
 			res.Exhaustive = false
 			res.CapHit = fmt.Sprintf("deadline reached while expanding depth %d", depth)
 			break
-		}
-		var nextFrontier []int
-		for i, o := range outs {
-			ni := frontier[i]
-			path := res.pathOf(ni)
-			if o.panicked != "" {
-				panic(fmt.Sprintf("harness/implementation panic at path %v: %s", path, o.panicked))
-			}
-			for k, v := range o.counters {
-				res.Counters[k] += v
-			}
-			for _, f := range o.findings {
-				f.Path = path
-				res.Findings = append(res.Findings, f)
-			}
-			for _, s := range o.succs {
-				res.Transitions++
-				res.Outcomes[s.Outcome]++
-				for _, f := range s.Findings {
-					f.Path = append(append([]string{}, path...), s.Label)
-					res.Findings = append(res.Findings, f)
-				}
-				if _, ok := seen[s.Key]; ok {
-					continue
-				}
-				if cfg.MaxStates > 0 && len(res.nodes) >= cfg.MaxStates {
-					res.Exhaustive = false
-					res.CapHit = fmt.Sprintf("state cap %d reached at depth %d", cfg.MaxStates, depth+1)
-					continue
-				}
-				seen[s.Key] = len(res.nodes)
-				res.nodes = append(res.nodes, node{state: s.State, parent: ni, label: s.Label, depth: depth + 1})
-				nextFrontier = append(nextFrontier, len(res.nodes)-1)
-			}
 		}
 		res.MaxDepthCompleted = depth
 		if !withSucc {
@@ -214,11 +245,18 @@ func Run(m Model, cfg Config) *Result {
 		}
 		frontier = nextFrontier
 		depth++
-		if len(frontier) == 0 {
+		if len(frontier) == 0 && res.CapHit == "" {
 			res.Closed = true
 		}
 	}
 	res.States = len(res.nodes)
+	if p := os.Getenv("TIBCMC_HEAPPROF_END"); p != "" {
+		runtime.GC()
+		if f, err := os.Create(p); err == nil {
+			pprof.WriteHeapProfile(f)
+			f.Close()
+		}
+	}
 	// sample paths: the first, a middle and the deepest node
 	idx := []int{0, len(res.nodes) / 2, len(res.nodes) - 1}
 	for _, i := range idx {
